@@ -47,3 +47,76 @@ Qed.
 (* the forward and the backward listing of a view with a known end hold the same pairs, reversed *)
 Lemma digit_at_some_range d p x : digit_at d p = Some x -> 0 <= p.
 Proof. unfold digit_at. destruct (Z.ltb_spec p 0); [discriminate|lia]. Qed.
+
+(* ---- C13: what NewNumber(g) exposes is the longest prefix of the stream whose values are all digits ---- *)
+Lemma take_valid_spec l : forall p bad, take_valid l = (p, bad) ->
+  Forall (fun x => in_range x = true) p /\
+  (if bad then exists x r, l = p ++ x :: r /\ in_range x = false else l = p).
+Proof.
+  induction l as [|x r IH]; intros p bad H; cbn [take_valid] in H.
+  - inversion H; subst. split; [constructor|reflexivity].
+  - destruct (in_range x) eqn:Ex.
+    + destruct (take_valid r) as [q b] eqn:Er. inversion H; subst. destruct (IH q bad eq_refl) as (F & T).
+      split; [constructor; auto|]. destruct bad.
+      * destruct T as (y & r' & -> & Hy). exists y, r'. split; [reflexivity|exact Hy].
+      * rewrite T. reflexivity.
+    + inversion H; subst. split; [constructor|]. exists x, r. split; [reflexivity|exact Ex].
+Qed.
+
+Lemma valid_prefix_spec raw rep :
+  let d := valid_prefix raw rep in
+  Forall (fun x => in_range x = true) (d_fixed d ++ d_rep d) /\
+  ( (* the stream never leaves 0..9: it is exposed as it is *)
+    (d = mkD raw rep /\ Forall (fun x => in_range x = true) (raw ++ rep))
+    \/ (* or it is cut just before the first value outside 0..9 *)
+    (d_rep d = [] /\ exists x r, (raw ++ rep) = d_fixed d ++ x :: r /\ in_range x = false)).
+Proof.
+  unfold valid_prefix. destruct (take_valid raw) as [p bad] eqn:E1. destruct (take_valid_spec raw p bad E1) as (F1 & T1).
+  destruct bad.
+  - cbn. rewrite app_nil_r. split; [exact F1|]. right. split; [reflexivity|].
+    destruct T1 as (x & r & -> & Hx). exists x, (r ++ rep). split; [rewrite <- app_assoc; reflexivity|exact Hx].
+  - subst p. destruct (take_valid rep) as [q bad2] eqn:E2. destruct (take_valid_spec rep q bad2 E2) as (F2 & T2).
+    destruct bad2.
+    + cbn. rewrite app_nil_r. split; [apply Forall_app; auto|]. right. split; [reflexivity|].
+      destruct T2 as (x & r & -> & Hx). exists x, r. split; [rewrite <- app_assoc; reflexivity|exact Hx].
+    + subst q. cbn. split; [apply Forall_app; auto|]. left. split; [reflexivity|apply Forall_app; auto].
+Qed.
+
+(* NewNumberForTesting: error exactly when a digit is outside 0..9 or the first digit would be 0; zero when both lists are empty *)
+Lemma forallb_false_exists l :
+  forallb in_range l = false <-> Exists (fun x => in_range x = false) l.
+Proof.
+  induction l as [|x l IH]; cbn.
+  - split; [discriminate|intros H; inversion H].
+  - destruct (in_range x) eqn:Ex; cbn.
+    + rewrite IH. split; [intros H; now right|intros H; inversion H; subst; [congruence|auto]].
+    + split; [intros _; now left|reflexivity].
+Qed.
+
+Lemma test_number_status_spec fixed rep :
+  (test_number_status fixed rep = 1 <-> fixed = [] /\ rep = []) /\
+  (test_number_status fixed rep = 2 <->
+     (fixed ++ rep <> [] /\ (Exists (fun x => in_range x = false) (fixed ++ rep) \/ exists r, fixed ++ rep = 0%Z :: r))).
+Proof.
+  assert (G : forall l, l <> [] ->
+            let s := if negb (forallb in_range l) then 2 else match l with 0 :: _ => 2 | _ => 0 end in
+            s <> 1 /\ (s = 2 <-> (Exists (fun x => in_range x = false) l \/ exists r, l = 0%Z :: r))).
+  { intros l Hl. cbn zeta. destruct (forallb in_range l) eqn:E; cbn [negb].
+    - destruct l as [|x r]; [congruence|]. split; [destruct x; discriminate|].
+      split.
+      + destruct x; try discriminate. intros _. right. eauto.
+      + intros [H|(r' & H)]; [apply forallb_false_exists in H; congruence|inversion H; subst; reflexivity].
+    - split; [discriminate|]. split; [intros _; left; now apply forallb_false_exists|reflexivity]. }
+  unfold test_number_status.
+  destruct fixed as [|f fs]; destruct rep as [|r rs].
+  - split; [split; auto|]. split; [discriminate|intros (H & _); cbn in H; congruence].
+  - destruct (G ([] ++ r :: rs) ltac:(discriminate)) as (G1 & G2). cbn zeta in G1, G2.
+    split; [split; [intros H; congruence|intros (_ & H); discriminate]|].
+    rewrite G2. split; [intros H; split; [discriminate|exact H]|intros (_ & H); exact H].
+  - destruct (G ((f :: fs) ++ []) ltac:(discriminate)) as (G1 & G2). cbn zeta in G1, G2.
+    split; [split; [intros H; congruence|intros (H & _); discriminate]|].
+    rewrite G2. split; [intros H; split; [discriminate|exact H]|intros (_ & H); exact H].
+  - destruct (G ((f :: fs) ++ r :: rs) ltac:(discriminate)) as (G1 & G2). cbn zeta in G1, G2.
+    split; [split; [intros H; congruence|intros (H & _); discriminate]|].
+    rewrite G2. split; [intros H; split; [discriminate|exact H]|intros (_ & H); exact H].
+Qed.
